@@ -83,6 +83,12 @@ for p in props:
     pid = p["id"]
     if pid in CHECKS:
         lvl, eng, tech, text, note = CHECKS[pid]
+        if pid == "C01":
+            eng += "+mwalk"
+            tech += "; every operation sequence up to depth 3/5 over every handle kind re-executed under the Miri interpreter"
+        if pid in ("C01", "C03", "C04", "C06", "C08", "C09", "C10", "C12", "C15"):
+            eng += "+typex-api"
+            tech += "; the API obligations this property relies on (bounds, receivers, by-value parameters) enumerated as client programs and decided by rustc"
         m["checks"].append({
             "property_id": pid,
             "quick_cmd": "./check %s --tier quick" % pid,
